@@ -144,3 +144,20 @@ Proof.
   { destruct C as [p [E _]]. eapply edge_src_lt; eauto. }
   eapply topo_acyclic; eauto.
 Qed.
+
+(* maxima of lists of naturals *)
+Lemma fold_max_ge : forall l x, In x l -> x <= fold_right Nat.max 0 l.
+Proof.
+  induction l as [|a l IH]; intros x Hx; [contradiction|].
+  destruct Hx as [<-|Hx]; simpl; [lia|]. specialize (IH x Hx). lia.
+Qed.
+
+Lemma fold_max_in : forall l, l <> [] -> In (fold_right Nat.max 0 l) l.
+Proof.
+  induction l as [|a l IH]; intros H; [congruence|]. simpl.
+  destruct l as [|b l]; [left; simpl; lia|].
+  destruct (le_lt_dec (fold_right Nat.max 0 (b :: l)) a) as [Hle|Hlt].
+  - left. lia.
+  - right. rewrite Nat.max_r by lia. apply IH. discriminate.
+Qed.
+
